@@ -756,6 +756,16 @@ fn gen_case(r: &mut Rng, out: &mut Out) -> Vec<String> {
             }
             let n = r.below(b.len() as u64) as usize;
             ops.push(format!("dec {}", hex(&b[..n])));
+            // the names of the message, parsed one by one: at the first record and at the pointers
+            ops.push(format!("name {} 12 {}", hex(&b), b.len()));
+            let ptrs: Vec<usize> = (12..b.len() - 1).filter(|&i| b[i] >= 0xc0).collect();
+            for _ in 0..2 {
+                if !ptrs.is_empty() {
+                    let at = *r.pick(&ptrs);
+                    ops.push(format!("name {} {} {}", hex(&b), at, b.len()));
+                    ops.push(format!("skip {} {} {}", hex(&b), at.saturating_sub(r.below(6) as usize), b.len()));
+                }
+            }
         }
         7 => {
             out.stat("mdns2_case_names", 1);
